@@ -134,6 +134,10 @@ func genCases(cfg vlib.Cfg, crossOK bool) []caseSpec {
 				if sp.Old == "present" {
 					sp.OldMode = 0o644
 				}
+				if i%4 == 3 {
+					// a key whose last element looks like one of renameio's temporaries (leading dot, trailing digits)
+					sp.Name = fmt.Sprintf(".%s%d", sp.Name[:2], 2+r.Intn(97))
+				}
 				if i%4 == 1 {
 					// the replace case is driven by the ptrace stepper, which also enumerates the crash
 					// points of the retry that follows an injected first-attempt error (second order)
@@ -154,6 +158,9 @@ func genCases(cfg vlib.Cfg, crossOK bool) []caseSpec {
 				// data is cut short, 3 = a member with a wrong CRC
 				sp.Old = "absent"
 				sp.Variant = []string{"ok", "ok", "truncmember", "corrupt"}[i%4]
+				if i%8 == 0 {
+					sp.Layout = "linkdir" // the storage sub-directory is a symlink to a directory
+				}
 				if i%4 == 1 {
 					sp.Old = "file"
 					if sp.OldSize == 0 {
@@ -169,6 +176,13 @@ func genCases(cfg vlib.Cfg, crossOK bool) []caseSpec {
 				sp.Variant = []string{"complete", "closehalf1", "chunked1", "truncated1", "reset1", "status1", "closefull1"}[i%7]
 				sp.TmpMount = "same"
 				sp.Signed = i%3 == 2
+				if i%7 == 1 {
+					// re-download over an existing file, first attempt fails, storage sub-directory is a symlink
+					sp.Layout = "linkdir"
+					if sp.Old == "absent" {
+						sp.Old = "present"
+					}
+				}
 				if sp.NewSize == 0 {
 					sp.NewSize = 1200 // Content-Length 0 is covered by the helpers; keep the retry variants meaningful
 				}
